@@ -65,6 +65,8 @@ FUNCS = ["european_payoff", "lookback_payoff", "american_binary_payoff", "europe
 
 def generate(rng):
     prims, derivs = [], []
+    house_n = rng.choice([1, 2, 3, 4, 5])      # shapes that recur across derivatives / actors: the hazard for anything
+    house_k = rng.randint(2, 9)                # cached by shape
     n_prim = rng.choice([1, 1, 2])
     for i in range(n_prim):
         kinds = STOCK_KINDS + ["TapePrimary", "CIRRate", "VasicekRate"]
@@ -77,7 +79,7 @@ def generate(rng):
                 kinds = ["EuropeanOption", "EuropeanBinaryOption", "LookbackOption"]
             else:
                 kinds = OPTION_KINDS + ["EuropeanForwardStartOption", "VarianceSwap"]
-            d = gen_derivative(rng, did, p, kinds=kinds)
+            d = gen_derivative(rng, did, p, kinds=kinds, steps=house_k if rng.chance(0.5) else None)
             if rng.chance(0.3):
                 d["clauses"] = gen_clauses(rng, rng.randint(1, 2))
             derivs.append(d)
@@ -195,7 +197,7 @@ def generate(rng):
         if kind == "simulate":
             if rng.chance(0.8):
                 d = rng.choice(derivs)
-                n = rng.npaths([1, 2, 3, 4, 5, 8])
+                n = house_n if rng.chance(0.5) else rng.npaths([1, 2, 3, 4, 5, 8])
                 op = {"op": "simulate", "target": d["id"], "n_paths": n, "torch_seed": rng.seed31()}
                 sim[d["underlier"]] = n
                 simk[d["underlier"]] = d["_k"]
